@@ -481,7 +481,7 @@ pub fn run(ctx: &Ctx) -> anyhow::Result<Report> {
 		} else { r.notes.push("fixture files not readable".into()); }
 	}
 
-	let n = if ctx.thorough { 12000 } else { 2400 };
+	let n = if ctx.thorough { 9000 } else { 2400 };
 	for i in 0..n {
 		let mut cfg = GenCfg::new(2);
 		match i % 7 { 0 => { cfg.max_classes = 2; cfg.max_members = 2; } 1 => { cfg.max_classes = 4; cfg.max_members = 5; cfg.max_params = 5; } 2 => { cfg.docs = false; } _ => {} }
@@ -537,8 +537,8 @@ pub fn run(ctx: &Ctx) -> anyhow::Result<Report> {
 		}
 	}
 
-	// coqc needs ~0.7 GB per 200 cases of this size and 16 shards are checked in parallel
-	r.shard_size = (r.cases.len() / 16 + 1).clamp(50, 200);
+	// coqc needs ~0.4 GB per 100 cases of this size and 16 shards are checked in parallel
+	r.shard_size = (r.cases.len() / 16 + 1).clamp(50, 110);
 	Ok(r)
 }
 
